@@ -329,3 +329,17 @@ Lemma loop_block_agrees :
     call loop_block_prog 500 [] [] = MDone st2 /\ users st1 = users st2 /\ users st1 = [(0%N, Some 1)]
     /\ length (scopes st2) = 1%nat.
 Proof. do 2 eexists. vm_compute. repeat split; reflexivity. Qed.
+
+(* BEGIN DECLARE v0 INT DEFAULT 1; BEGIN DECLARE v0 INT DEFAULT 2; IF 1 THEN SET @u1 = 1; ELSE BEGIN SET @u1 = 2; END; END IF; END;
+   SET @u0 = v0; END *)
+Definition else_block_prog : stmt :=
+  blk 0 (SSeq (dcl 0 1)
+        (SSeq (blk 0 (SSeq (dcl 0 2) (SIf (EConst 1) (setu 1 (EConst 1)) (blk 0 (setu 1 (EConst 2))))))
+              (setu 0 (var 0)))).
+
+(* the Goto that skips an ELSE branch walks only up to Index-2: when the branch ends with a block, its ScopeBegin is
+   pushed but its ScopeEnd not popped; the enclosing block then pops the wrong scope *)
+Lemma else_block_leaks_scope :
+  (exists st, exec 20 else_block_prog (init_state [] []) = (ONormal, st) /\ assocN 0%N (users st) = Some (Some 1))
+  /\ (exists st, call else_block_prog 100 [] [] = MDone st /\ assocN 0%N (users st) = Some (Some 2) /\ length (scopes st) = 2%nat).
+Proof. split; eexists; vm_compute; repeat split; reflexivity. Qed.
